@@ -85,9 +85,13 @@ impl StorageData for Faulty {
 
 fn open_faulty(w: &World, path: &str, base: usize) -> Result<Box<dyn DbLike>, String> {
     // copy the prepared base file, then open through the public with_data seam
-    let _ = w.open_base(Variant::File, path, base)?; // copies + opens + closes (drop) the plain variant
-    let db = DbImpl::<Faulty>::with_data(Faulty::new(path).map_err(|e| e.description)?).map_err(|e| e.description)?;
-    Ok(Box::new(db))
+    // copy the prepared base file (or replay a live base's script), through the public with_data seam
+    let script = w.stage_base(path, base)?;
+    let mut db: Box<dyn DbLike> = Box::new(DbImpl::<Faulty>::with_data(Faulty::new(path).map_err(|e| e.description)?).map_err(|e| e.description)?);
+    for s in script {
+        s.run(db.as_mut()).map_err(|e| format!("base script failed: {}", e.description))?;
+    }
+    Ok(db)
 }
 
 pub fn run(args: &Args) -> i32 {
@@ -102,10 +106,29 @@ pub fn run(args: &Args) -> i32 {
     let distinct = DistinctCounter::default();
     let fine = AtomicU64::new(0);
 
+    let n_alpha = w.alpha.len();
+    // last steps n_alpha.. are maintenance operations: close (drop => defragmentation), optimize_storage, shrink_to_fit
+    let maint_names = ["close", "optimize_storage", "shrink_to_fit"];
+    let run_last = |db: &mut Option<Box<dyn DbLike>>, last: usize| -> Result<(), String> {
+        if last < n_alpha {
+            return w.alpha[last].1.run(db.as_mut().unwrap().as_mut()).map(|_| ()).map_err(|e| e.description);
+        }
+        agdb::verif::set_probe_budget(PROBE_BUDGET);
+        let r = match last - n_alpha {
+            0 => {
+                *db = None; // drop: errors of the implicit defragmentation are swallowed by design
+                Ok(())
+            }
+            1 => db.as_mut().unwrap().optimize().map_err(|e| e.description),
+            _ => db.as_mut().unwrap().shrink().map_err(|e| e.description),
+        };
+        agdb::verif::set_probe_budget(u64::MAX);
+        r
+    };
     let check = |base: usize, hist: &Hist, last: usize, scratch: &Scratch, only: Option<(u64, usize)>| {
         scratch.clear();
-        let last_kind = w.alpha[last].1.kind();
-        let last_name = w.alpha[last].0;
+        let last_kind = if last < n_alpha { w.alpha[last].1.kind() } else { maint_names[last - n_alpha].to_string() };
+        let last_name = if last < n_alpha { w.alpha[last].0 } else { maint_names[last - n_alpha] };
         let detail = |n: u64, f: Option<usize>| json!({"last": last_name, "fail_call": n, "follow_up": f.map(|i| w.alpha[i].0)});
         // reference run: no fault. Learn the number of storage calls and the reference follow-up results.
         let r = catch(|| -> Result<(String, u64, Vec<(String, String)>), String> {
@@ -121,9 +144,10 @@ pub fn run(args: &Args) -> i32 {
                 let _ = w.alpha[*i].1.run(db.as_mut());
             }
             arm(0);
-            let _ = w.alpha[last].1.run(db.as_mut());
+            let mut dbo = Some(db);
+            let _ = run_last(&mut dbo, last);
             let (n, _) = disarm();
-            drop(db);
+            drop(dbo);
             // reference follow-ups from the state `before`
             let mut refs = vec![];
             for (k, f) in follow.iter().enumerate() {
@@ -165,7 +189,8 @@ pub fn run(args: &Args) -> i32 {
                         let _ = w.alpha[*i].1.run(db.as_mut());
                     }
                     arm(n);
-                    let res = catch(|| w.alpha[last].1.run(db.as_mut()));
+                    let mut dbo = Some(db);
+                    let res = catch(|| run_last(&mut dbo, last));
                     let (_, kind) = disarm();
                     fault_kind.set(kind);
                     let res = match res {
@@ -175,7 +200,17 @@ pub fn run(args: &Args) -> i32 {
                     if kind.is_empty() {
                         return Ok(None); // call n not reached on this path (cannot happen: deterministic)
                     }
-                    if res.is_ok() {
+                    if last == n_alpha {
+                        // the database was closed while a write of its defragmentation failed: it must reopen unchanged
+                        let db = Variant::File.open(&path).map_err(|e| ("reopen-fails".to_string(), format!("{} / {}", e.description, e.cause.map(|c| c.description).unwrap_or_default())))?;
+                        let d3 = dump(db.as_ref(), false).map_err(|e| ("reopened-unreadable".to_string(), e))?.canonical();
+                        if d3 != before {
+                            return Err(("state-differs-after-failed-close".into(), "after a close whose defragmentation hit a failing write the reopened database differs".into()));
+                        }
+                        return Ok(Some((String::new(), d3)));
+                    }
+                    let mut db = dbo.take().unwrap();
+                    if res.is_ok() && last < n_alpha {
                         return Err(("faulted-query-reports-success".into(), "a storage write failed but the query returned Ok".into()));
                     }
                     let now = dump(db.as_ref(), false).map_err(|e| ("database-unreadable-after-failure".to_string(), e))?.canonical();
@@ -220,7 +255,7 @@ pub fn run(args: &Args) -> i32 {
         let v: Value = serde_json::from_str(&std::fs::read_to_string(path).unwrap_or_else(|e| engine::machinery_failure(&e.to_string()))).unwrap();
         let (base, hist) = w.parse_replay(&v["replay"]);
         let d = &v["replay"]["detail"];
-        let last = w.alpha.iter().position(|a| Some(a.0) == d["last"].as_str()).unwrap_or_else(|| engine::machinery_failure("replay: unknown last step"));
+        let last = w.alpha.iter().position(|a| Some(a.0) == d["last"].as_str()).or_else(|| maint_names.iter().position(|m| Some(*m) == d["last"].as_str()).map(|i| i + n_alpha)).unwrap_or_else(|| engine::machinery_failure("replay: unknown last step"));
         let f = w.alpha.iter().position(|a| Some(a.0) == d["follow_up"].as_str()).unwrap_or(follow[0]);
         check(base, &hist, last, &Scratch::new("c32r"), Some((d["fail_call"].as_u64().unwrap_or(1), f)));
         return report.finish();
@@ -243,7 +278,7 @@ pub fn run(args: &Args) -> i32 {
     let mut items = vec![];
     for b in 0..w.bases.len() {
         for p in &prefixes {
-            for l in 0..w.alpha.len() {
+            for l in 0..w.alpha.len() + 3 {
                 items.push((b, p.clone(), l));
             }
         }
@@ -253,7 +288,7 @@ pub fn run(args: &Args) -> i32 {
         let (b, p, l) = &items[i];
         check(*b, p, *l, &scratches[wi], None);
     });
-    report.sample(json!({"history": w.replay_json(items[3].0, &items[3].1, json!(null)), "faulted_step": w.alpha[items[3].2].0, "fault": "each storage write/resize call of the step fails once", "then": follow_names}));
+    report.sample(json!({"history": w.replay_json(items[3].0, &items[3].1, json!(null)), "faulted_step": w.alpha[items[3].2.min(n_alpha - 1)].0, "fault": "each storage write/resize call of the step fails once", "then": follow_names}));
     report.set("evaluations", json!(scenarios.load(Ordering::SeqCst)));
     report.set("distinct_nontrivial", json!(faults.load(Ordering::SeqCst)));
     report.set("faulted_steps", json!(steps.load(Ordering::SeqCst)));
@@ -263,7 +298,7 @@ pub fn run(args: &Args) -> i32 {
     report.set("history_depth", json!(depth));
     report.set("follow_ups", json!(follow_names));
     report.set("exhaustive", json!(true));
-    report.set("rule", json!("every history of <= depth steps over H from 5 base states on DbImpl<Faulty(FileStorage)>; for the last step every storage write/resize call (distinct_nontrivial = number of distinct (step, call ordinal) fault points) fails once without being performed; oracle: the query returns Err, the database is unchanged, each follow-up step behaves as on a never-faulted database, and close + reopen preserves the follow-up's effect"));
+    report.set("rule", json!("every history of <= depth steps over H (+ close, optimize_storage, shrink_to_fit as last step) from 6 base states on DbImpl<Faulty(FileStorage)>; for the last step every storage write/resize call (distinct_nontrivial = number of distinct (step, call ordinal) fault points) fails once without being performed; oracle: the query returns Err, the database is unchanged, each follow-up step behaves as on a never-faulted database, and close + reopen preserves the follow-up's effect"));
     report.assume("fault model: the n-th write/resize returns Err without side effect (disk full); read, flush, rename and backup never fail");
     report.finish()
 }
